@@ -283,6 +283,9 @@ pub fn generate(seed: u64, config: u64, scale_arg: u32) -> Case {
             c: r.next_u32(),
         });
     }
+    if text.len() > (1 << 20) {
+        ops.truncate(6); // multi-megabyte texts: a short history is enough and keeps the run cheap
+    }
     // other files of this run: mostly one-liners (a REPL line, an eval string), sometimes a text
     // from the same generator
     const ONE_LINERS: &[&str] = &["x = 1", "", "é", "\u{feff}a", "λ = 'ü'", "pass", "\u{feff}", "a😀b"];
@@ -1915,8 +1918,8 @@ fn shrink_text_candidates(text: &str) -> Vec<String> {
             out.push(rem.into_iter().collect());
         }
     }
-    // simplify characters
-    for i in 0..n {
+    // simplify characters (each candidate is a copy of the text: only for small texts)
+    for i in 0..if n <= 600 { n } else { 0 } {
         let repl = match chars[i] {
             'a' | '\n' => continue,
             '\r' if i + 1 < n && chars[i + 1] == '\n' => continue, // removing a char already covers it
